@@ -319,25 +319,34 @@ def run_plasticity(col):
 
     # two quadrature points evaluated in one call; each combination of (yields, does not yield): the update of one point must not
     # depend on whether the *other* point yields (the masked update)
-    for cases in (("plastic", "plastic"), ("elastic", "elastic"), ("plastic", "elastic"), ("elastic", "plastic")):
-        de, en, sn = symm("de"), symm("en"), symm("sn")
-        alpha = symarray("alpha", (1, 2, 1), positive=True)[0]  # the model receives it with a leading axis of length one
-        ep = symm("ep")
+    # a third kind of point, "zero": no strain increment and no stored stress -- its deviatoric trial stress vanishes identically, so the
+    # flow direction s / |s| is 0/0 there (NaN in floating point, evaluated in the ring's IEEE mode); it must stay untouched by the update
+    for cases in (("plastic", "plastic"), ("elastic", "elastic"), ("plastic", "elastic"), ("elastic", "plastic"), ("plastic", "zero"), ("zero", "plastic", "elastic")):
+        nqc = len(cases)
+        de, en, sn = symm("de", nqc), symm("en", nqc), symm("sn", nqc)
+        for q_, c_ in enumerate(cases):
+            if c_ == "zero":
+                de[:, :, q_, 0] = ZERO
+                sn[:, :, q_, 0] = ZERO
+        alpha = symarray("alpha", (1, nqc, 1), positive=True)[0]  # the model receives it with a leading axis of length one
+        ep = symm("ep", nqc)
         zeta = [alpha.copy()[None], ep.copy()]
 
         def oracle(a, b, op, cases=cases):
             if op == ">" and b.is_const() and b.const_value() == 0:
                 txt = str(a)
-                in0, in1 = "alpha[0,0,0]" in txt, "alpha[0,1,0]" in txt
-                if in0 != in1:
-                    return cases[0 if in0 else 1] == "plastic"
+                hits = [q_ for q_ in range(len(cases)) if "alpha[0,%d,0]" % q_ in txt]
+                if len(hits) == 1:
+                    return cases[hits[0]] == "plastic"
             return None
 
         ring.ORDER_ORACLE[0] = oracle
+        ring.IEEE[0] = "zero" in cases
         try:
             dsde, sig, znew = it.call(f, [de, en, sn, zeta], {"λ": lam, "μ": mu, "σy": sy, "K": K, "tangent": True})
         finally:
             ring.ORDER_ORACLE[0] = None
+            ring.IEEE[0] = False
         sig = npmodel.to_obj(sig)
         dsde = npmodel.to_obj(dsde)
         tag = "/".join(cases)
